@@ -15,6 +15,7 @@ R13.5  nothing else under dashlive/server reads the Range header.
 from __future__ import annotations
 
 import ast
+import re
 
 from ..absint import AVal, INF, Zone, ZoneDomain, ZERO, proves_le
 from ..core import (AnalysisError, Report, call_name, dotted, enclosing_class,
@@ -60,16 +61,26 @@ def _split_pieces(fn: ast.FunctionDef) -> set[str]:
     return out
 
 
-def _cr_fstring(node: ast.AST):
-    """find the Content-Range f-string in a statement: ('range', [names]) / ('star', [name])"""
+def _cr_fstring(node: ast.AST, templates: dict | None = None):
+    """find the Content-Range f-string in a statement: ('range', [names]) / ('star', [name]);
+    a field that is a local holding a template itself is spliced in"""
+    templates = templates or {}
     for n in ast.walk(node):
         if isinstance(n, ast.JoinedStr) and n.values and isinstance(n.values[0], ast.Constant) \
                 and str(n.values[0].value).startswith('bytes '):
-            names = []
+            parts = []
             for p in n.values:
+                if isinstance(p, ast.FormattedValue) and isinstance(p.value, ast.Name) \
+                        and p.value.id in templates:
+                    t = templates[p.value.id]
+                    parts.extend(t.values if isinstance(t, ast.JoinedStr) else [t])
+                else:
+                    parts.append(p)
+            names = []
+            for p in parts:
                 if isinstance(p, ast.FormattedValue):
                     names.append(norm(p.value))
-            consts = ''.join(str(p.value) for p in n.values if isinstance(p, ast.Constant))
+            consts = ''.join(str(p.value) for p in parts if isinstance(p, ast.Constant))
             if '*/' in consts:
                 return ('star', names)
             return ('range', names)
@@ -104,7 +115,13 @@ def analyse_function(rep: Report) -> tuple[str, str]:
     def on_stmt(st: ast.stmt, s: Zone) -> None:
         if isinstance(st, (ast.If, ast.While, ast.For, ast.With, ast.Try)):
             return
-        cr = _cr_fstring(st)
+        # string locals that are templates themselves (`byte_range = f'{start}-{end}'` / '*')
+        if isinstance(st, (ast.Assign, ast.AnnAssign)) and st.value is not None:
+            tg_ = st.targets[0] if isinstance(st, ast.Assign) else st.target
+            if isinstance(tg_, ast.Name) and isinstance(st.value, (ast.JoinedStr, ast.Constant)) \
+                    and (isinstance(st.value, ast.JoinedStr) or isinstance(st.value.value, str)):
+                s.aux[f'tmpl:{tg_.id}'] = st.value
+        cr = _cr_fstring(st, {k[5:]: v for k, v in s.aux.items() if k.startswith('tmpl:')})
         if cr is not None:
             kind, names = cr
             s.aux['cr'] = (kind, tuple((n, s.defs.get(n, frozenset())) for n in names))
@@ -136,6 +153,15 @@ def analyse_function(rep: Report) -> tuple[str, str]:
                     if isinstance(tr, ast.Try) and any("headers['range']" in norm(b).lower()
                                                        or 'headers["range"]' in norm(b).lower()
                                                        for b in tr.body):
+                        in_absent = True
+            # ... or be taken only when `<v> is None` for a <v> read with headers.get('range')
+            for f in s.facts:
+                if f.startswith('none:'):
+                    v = f[5:]
+                    defs = [a for a in ast.walk(fn) if isinstance(a, (ast.Assign, ast.AnnAssign))
+                            and a.value is not None
+                            and norm(a.targets[0] if isinstance(a, ast.Assign) else a.target) == v]
+                    if defs and all(re.search(r"headers\.get\(['\"]range['\"]", norm(d.value), re.I) for d in defs):
                         in_absent = True
             if in_absent:
                 rep.ok('R13.1', construct, 'no-range exit only when the header is absent')
@@ -225,15 +251,18 @@ def _path_id(s: Zone) -> str:
 
 def analyse_callers(rep: Report) -> None:
     n_calls = 0
+    sites = []
     for rel in rep.repo.py_files('dashlive'):
-        tree = rep.repo.tree(rel)
-        for n in ast.walk(tree):
-            if not (isinstance(n, ast.Call) and isinstance(n.func, ast.Attribute)
-                    and n.func.attr == 'get_http_range'):
-                continue
+        if 'get_http_range' not in rep.repo.source(rel):
+            continue
+        for cls_, fn_ in rep.repo.expanded_functions(rel):
+            for n in ast.walk(fn_):
+                if isinstance(n, ast.Call) and isinstance(n.func, ast.Attribute) \
+                        and n.func.attr == 'get_http_range':
+                    sites.append((rel, cls_, fn_, n))
+    for rel, cls, fn, n in sites:
+        if True:
             n_calls += 1
-            fn = enclosing_function(n)
-            cls = enclosing_class(n)
             construct = f'{rel}::{cls.name + "." if cls else ""}{fn.name if fn else "?"}'
             # (a) inside try/except ValueError -> 400
             covered = False
@@ -306,7 +335,14 @@ def analyse_callers(rep: Report) -> None:
                                  f'slice upper bound is not `{e_name} + 1` (end is inclusive)', m)
                 if isinstance(m, ast.Call) and isinstance(m.func, ast.Attribute) \
                         and m.func.attr == 'read' and len(m.args) == 1:
-                    lin = linear(m.args[0])
+                    arg0 = m.args[0]
+                    if isinstance(arg0, ast.Name):
+                        ds = [a for a in ast.walk(fn) if isinstance(a, (ast.Assign, ast.AnnAssign))
+                              and a.value is not None
+                              and norm(a.targets[0] if isinstance(a, ast.Assign) else a.target) == arg0.id]
+                        if len(ds) == 1:
+                            arg0 = ds[0].value
+                    lin = linear(arg0)
                     if lin is not None and (s_name in lin or e_name in lin):
                         uses += 1
                         if lin == {e_name: 1, s_name: -1, '': 1}:
